@@ -284,11 +284,12 @@ static void register_sections(bool thorough) {
                        s.rot = ROT[d[7]];
                        return true;
                    });
-    add_single_sub("turn", "turn after a segment (2 directions): r{1/2,2} x +-{0.3,pi/2,3}", {NT, 2, 2, 2, 6}, 20,
+    add_single_sub("turn", "turn after a segment (8 headings incl. west-bound ones on both sides of the atan2 branch cut): r{1/2,2} x +-{0.3,pi/2,3}", {NT, 2, 8, 2, 6}, 20,
                    [](const std::vector<int>& d, SingleCase& sc) {
                        static const double RR[2] = {0.5, 2}, AN[6] = {0.3, M_PI / 2, 3, -0.3, -M_PI / 2, -3};
+                       static const Vec2 PD8[8] = {{-1, 0}, {-1, -2}, {0, -1}, {1, -1}, {2, 0}, {2, 0.2}, {2, -0.2}, {0, 1}};
                        sc.toli = d[0]; sc.start = STARTS[d[1]];
-                       sc.has_prefix = true; sc.prefix_from = sc.start + PREFIX_D[d[2]];
+                       sc.has_prefix = true; sc.prefix_from = sc.start + PD8[d[2]];
                        sc.spec.kind = TURN; sc.spec.rx = RR[d[3]]; sc.spec.a0 = AN[d[4]];
                        return true;
                    });
@@ -318,6 +319,109 @@ static void register_sections(bool thorough) {
                        }
                        return true;
                    });
+}
+
+// ------------------------------------------------------------------ (A+) interpolation in every orientation
+// Every way-point set in 16 orientations (rotations by multiples of 45 degrees about the start, and
+// their mirror images; angle constraints transformed alongside), open and cyclic, with and without
+// angle constraints.  Oracle: the usual section oracle (Hobby equations + on-curve + deviation) and
+// the covariance of the construction: the polyline of the transformed way-points must be the
+// transformed polyline of the untransformed ones within K x tolerance (both directions).
+static std::vector<Vec2> polyline_of(const Vec2& start, double tol, const Spec& sp) {
+    Curve c = {};
+    c.init(start, tol);
+    apply_direct(c, sp);
+    std::vector<Vec2> v(c.point_array.items, c.point_array.items + c.point_array.count);
+    c.clear();
+    return v;
+}
+static void run_interp_oriented(int64_t idx, const std::vector<int>& d, bool verbose) {
+    // d: tol, start, rel, cycle, set, constraint pattern, orientation
+    static const std::vector<std::vector<Vec2>> KN = {{{2, 1}}, {{2, 0}, {2, 2}}, {{1, 1}, {2, -1}}, {{2, 0.2}, {4, -0.2}}, {{1, 0.1}, {2, -0.1}, {3, 0.2}},
+                                                     {{2, 1}, {-1, 2}}, {{0, 2}, {2, 2}}, {{1.5, 0.5}, {3, 0.4}, {4, -1}}};
+    static const double ANG[4] = {0.5, -0.8, 2.0, -0.3};
+    const Vec2 start = STARTS[d[1]];
+    auto make = [&](int o, SingleCase& sc) {
+        int k = o % 8;
+        bool mir = o >= 8;
+        double rot = k * M_PI / 4, cr = cos(rot), sr = sin(rot);
+        if (k % 2 == 0) { static const double C4[4] = {1, 0, -1, 0}, S4[4] = {0, 1, 0, -1}; cr = C4[k / 2]; sr = S4[k / 2]; }   // exact quarter turns
+        sc.toli = d[0];
+        sc.start = start;
+        Spec& s = sc.spec;
+        s.kind = INT; s.rel = d[2]; s.cycle = d[3];
+        for (auto& q0 : KN[d[4]]) {
+            Vec2 q = q0;
+            if (mir) q.y = -q.y;
+            Vec2 t = {q.x * cr - q.y * sr, q.x * sr + q.y * cr};
+            s.pts.push_back(s.rel ? t : start + t);
+        }
+        size_t nk = s.pts.size() + 1;
+        for (size_t i = 0; i < nk; i++) {
+            bool c = d[5] == 1 ? i == 0 : d[5] == 2 ? true : d[5] == 3 ? i == nk - 1 : false;
+            s.cons.push_back(c);
+            double a = rot + (mir ? -ANG[i] : ANG[i]);
+            while (a > M_PI) a -= 2 * M_PI;
+            while (a <= -M_PI) a += 2 * M_PI;
+            s.angles.push_back(a);
+        }
+    };
+    SingleCase sc;
+    make(d[6], sc);
+    run_single(sc, "interpolation_oriented", idx, verbose);
+    if (d[6] == 0) return;
+    // covariance with orientation 0
+    SingleCase base;
+    make(0, base);
+    double tol = TOLS[d[0]];
+    std::vector<Vec2> A = polyline_of(start, tol, sc.spec), B = polyline_of(start, tol, base.spec);
+    int k = d[6] % 8;
+    bool mir = d[6] >= 8;
+    double rot = k * M_PI / 4;
+    LD cr = cosl((LD)k * PI_L / 4), sr = sinl((LD)k * PI_L / 4);
+    std::vector<P2> PA, PB;
+    bool finite = true;
+    for (auto& v : A) { PA.push_back(toP(v)); finite &= std::isfinite(v.x) && std::isfinite(v.y); }
+    for (auto& v : B) {
+        finite &= std::isfinite(v.x) && std::isfinite(v.y);
+        P2 q = toP(v) - toP(start);
+        if (mir) q.y = -q.y;
+        PB.push_back(toP(start) + P2{q.x * cr - q.y * sr, q.x * sr + q.y * cr});
+    }
+    R->count("covariance_checked");
+    if (!finite || PA.size() < 2 || PB.size() < 2) return;
+    auto hd = [](const std::vector<P2>& X, const std::vector<P2>& Y, P2& where) {
+        LD worst = 0;
+        for (auto& x : X) {
+            LD dd = 1e300L;
+            for (size_t i = 0; i + 1 < Y.size(); i++) dd = std::min(dd, dist_seg(x, Y[i], Y[i + 1]));
+            if (dd > worst) { worst = dd; where = x; }
+        }
+        return worst;
+    };
+    P2 w1 = {0, 0}, w2 = {0, 0};
+    LD h1 = hd(PA, PB, w1), h2 = hd(PB, PA, w2);
+    LD h = std::max(h1, h2);
+    P2 w = h1 >= h2 ? w1 : w2;
+    if (h > K_DEV * tol) {
+        R->violation("section.interpolation", "covariance", {{"rotation_deg", jint(45 * k)}, {"mirrored", jbool(mir)}, {"cycle", jbool(sc.spec.cycle)}, {"constraints", jint(d[5])}, {"tol", jstr(TOL_S[d[0]])}, {"ratio", jnum((double)(h / tol))}},
+                     jobj({{"start", "[" + jnum(start.x) + "," + jnum(start.y) + "]"}, {"tolerance", jnum(tol)}, {"section", sc.spec.json()}, {"untransformed_section", base.spec.json()}}),
+                     fmt("polyline of the way-points rotated by %d deg%s (%zu vertices) is %.6Lg = %.2Lf x tolerance away from the equally transformed polyline of the original way-points (%zu vertices), at (%.9Lg, %.9Lg)", 45 * k, mir ? " and mirrored" : "", A.size(), h, h / tol, B.size(), w.x, w.y),
+                     "sub=interpolation_oriented idx=" + std::to_string(idx));
+        if (verbose) fprintf(stderr, "  ** VIOLATION covariance: %.6Lg\n", h);
+    }
+    (void)rot;
+}
+static void register_interp_oriented() {
+    Radix rx;
+    rx.dims = {(int64_t)TOLS.size(), 2, 2, 2, 8, 4, 16};
+    Sub s;
+    s.name = "interpolation_oriented";
+    s.desc = "interpolation: 8 way-point sets (1-3 points, incl. gentle zigzags) x 16 orientations (8 rotations by 45 deg x mirror) x 4 constraint patterns x cycle x relative x start x tolerance; section oracle + covariance with orientation 0";
+    s.n = rx.total();
+    s.chunk = 64;
+    s.run = [rx](int64_t idx, bool verbose) { run_interp_oriented(idx, rx.decode(idx), verbose); };
+    SUBS.push_back(s);
 }
 
 // ------------------------------------------------------------------ (A') absolute scale of the feature
@@ -688,6 +792,7 @@ int main(int argc, char** argv) {
     register_array_pairs();
     register_scaled(run.thorough());
     register_sbends();
+    register_interp_oriented();
     std::stable_sort(SUBS.begin(), SUBS.end(), [](const Sub& a, const Sub& b) { return a.n < b.n; });
 
     if (run.replaying()) {
